@@ -362,6 +362,18 @@ def check(pid, tier, seed, replay=None):
                 continue
             cfgp = os.path.join(SPEC, "cfg", mc["cfg"])
             cfg_text = open(cfgp).read()
+            # the model runs do not depend on /repo: a clean result is remembered per (module, Props, cfg) content
+            hk = hashlib.sha256()
+            for fpath in (os.path.join(SPEC, mc["module"]), os.path.join(SPEC, "Props.tla")):
+                hk.update(open(fpath, "rb").read())
+            hk.update(cfg_text.encode() + repr(mc.get("extra")).encode())
+            memo = os.path.join(CACHE, "mc", hk.hexdigest()[:20] + ".json")
+            if os.path.exists(memo) and not os.environ.get("VERIF_NO_MC_MEMO"):
+                r0 = json.load(open(memo))
+                states += r0["distinct"]
+                transitions += r0["generated"]
+                mc_notes.append(dict(r0, memo=True))
+                continue
             rc, out, wall = run_tlc(mc["module"], cfg_text, workers=mc.get("workers", max(2, NCPU - 2)),
                                     timeout=mc.get("timeout", 900), extra=mc.get("extra"))
             r = parse_tlc(out)
@@ -375,7 +387,11 @@ def check(pid, tier, seed, replay=None):
                 return 2
             states += r["distinct"]
             transitions += r["generated"]
-            mc_notes.append({"module": mc["module"], "cfg": mc["cfg"], "distinct": r["distinct"], "generated": r["generated"], "wall_s": round(wall, 1)})
+            note = {"module": mc["module"], "cfg": mc["cfg"], "distinct": r["distinct"], "generated": r["generated"], "wall_s": round(wall, 1)}
+            mc_notes.append(note)
+            if r["distinct"] > 0:
+                os.makedirs(os.path.dirname(memo), exist_ok=True)
+                json.dump(note, open(memo, "w"))
     # ---- (V) conformance: traces recorded from the real code, validated by TLC ----
     files = []
     if replay:
